@@ -54,6 +54,11 @@ class StmtMixin:
 
     def bind_target(self, t, v: V, st: State, node):
         if isinstance(t, ast.Name):
+            hint = None
+            cc = self.reg.contracts.get(self.cur_qual)
+            if cc is not None and t.id in cc.locals:
+                hint = parse_kind(cc.locals[t.id], self.reg.opaque)
+                v = self.coerce_arg(v, hint, st, f"local {t.id}")
             st.env[t.id] = v
         elif isinstance(t, (ast.Tuple, ast.List)):
             if not isinstance(v.kind, Tup):
@@ -425,7 +430,7 @@ class StmtMixin:
 
         # 1. invariants hold on entry
         for name, txt in spec.invariants.items():
-            g = self.spec_bool(txt, inv_env(st, z3.IntVal(0)), st, self.entry_state)
+            g = self.spec_goal(txt, inv_env(st, z3.IntVal(0)), st, self.entry_state)
             self.oblige(st, "inv-init", f"{lab}.{name}", g, s, note=txt)
 
         top_entry = st.top
@@ -447,6 +452,10 @@ class StmtMixin:
                         pass
             for region, addr in loop_allowed:
                 self.havoc_region(h, region, addr)
+                if region == "dict" and addr.get_id() in self._mod_values:
+                    dv = self._mod_values[addr.get_id()]
+                    if dv.kind.target.k is not None:
+                        h.assume(self.dict_wf(h, dv))
             if allocates:
                 t = fresh("ltop", I)
                 h.assume(t >= top_entry)
@@ -466,7 +475,7 @@ class StmtMixin:
             if is_for:
                 h.assume(z3.And(0 <= k, k < n))
             for name, txt in spec.invariants.items():
-                h.assume(self.spec_bool(txt, inv_env(h, k), h, self.entry_state))
+                h.assume(self.spec_assume(txt, inv_env(h, k), h, self.entry_state))
             new_kinds = {}
             alloc_seen = False
             heads = []
@@ -504,7 +513,7 @@ class StmtMixin:
                         self.ghost_exec(ghost_step, s2)
                         kk = (k + 1) if is_for else None
                         for name, txt in spec.invariants.items():
-                            g = self.spec_bool(txt, inv_env(s2, kk), s2, self.entry_state)
+                            g = self.spec_goal(txt, inv_env(s2, kk), s2, self.entry_state)
                             self.oblige(s2, "inv-step", f"{lab}.{name}", g, s, note=txt)
                         if dec0 is not None:
                             d1 = ops.to_int_term(self.spec_eval(spec.decreases, inv_env(s2, kk), s2, self.entry_state))
@@ -530,7 +539,7 @@ class StmtMixin:
         if is_for:
             e = havoced(alloc_seen)
             for name, txt in spec.invariants.items():
-                e.assume(self.spec_bool(txt, inv_env(e, n), e, self.entry_state))
+                e.assume(self.spec_assume(txt, inv_env(e, n), e, self.entry_state))
             e.trace.append(f"{lab}-done")
             # loop target after the loop
             tn = self.target_names(s.target)
